@@ -93,3 +93,67 @@ def extents(draw, mins, max_extent=9):
         else:
             out.append(draw(st.sampled_from(cands)))
     return out
+
+
+# ----------------------------------------------------------------------------------------
+# spline spaces
+# ----------------------------------------------------------------------------------------
+import math  # noqa: E402
+
+ORIGINS = [0.0, -1.0, 0.1, -3.75, 2.0, 100.0, -7.32]
+LENGTHS = [1.0, 2 * math.pi, 0.01, 14.4, 1000.0, 1.0 / 3.0, 14.64, 1506.759067]
+
+
+@st.composite
+def spline_space(draw, max_degree=5, min_cells=1, max_cells=12, periodic=None, cubic_uniform=None,
+                 uniform_breaks=None):
+    """
+    Space dict for oracles.bspl: degree, periodic, uniform (flag), breaks.
+    cubic_uniform: True -> force the uniform-cubic fast path, False -> never, None -> either.
+    """
+    if cubic_uniform is True:
+        p = 3
+    else:
+        p = draw(st.integers(1, max_degree))
+    per = draw(st.booleans()) if periodic is None else periodic
+    lo = max(min_cells, p + 1) if per else min_cells
+    nc = draw(st.integers(lo, max(max_cells, lo)))
+    a = draw(st.sampled_from(ORIGINS))
+    L = draw(st.sampled_from(LENGTHS))
+    if cubic_uniform is True:
+        ub = True
+    elif uniform_breaks is None:
+        ub = draw(st.booleans())
+    else:
+        ub = uniform_breaks
+    if ub:
+        breaks = [a + L * k / nc for k in range(nc)] + [a + L]
+        import numpy as _np
+        breaks = [float(x) for x in _np.linspace(a, a + L, nc + 1)]
+        flag = True if cubic_uniform is True else draw(st.booleans())
+        if cubic_uniform is False and p == 3:
+            flag = False
+    else:
+        inc = draw(st.lists(st.floats(0.05, 1.0), min_size=nc, max_size=nc))
+        tot = sum(inc)
+        acc = 0.0
+        breaks = [a]
+        for x in inc:
+            acc += x
+            breaks.append(a + L * acc / tot)
+        breaks[-1] = a + L
+        if not all(b1 > b0 for b0, b1 in zip(breaks, breaks[1:])):
+            breaks = [float(x) for x in __import__("numpy").linspace(a, a + L, nc + 1)]
+            ub = True
+        flag = False
+    return {"degree": p, "periodic": per, "uniform": bool(flag), "breaks": breaks, "uniform_breaks": bool(ub)}
+
+
+def coeff_values(n, magnitude=1e3):
+    """n coefficients: generated floats, unit vectors, zeros, constants."""
+    floats = st.floats(-magnitude, magnitude, allow_nan=False, allow_infinity=False)
+    unit = st.integers(0, max(n - 1, 0)).map(lambda j: [1.0 if i == j else 0.0 for i in range(n)])
+    return st.one_of(st.lists(floats, min_size=n, max_size=n),
+                     st.lists(floats, min_size=n, max_size=n),
+                     unit,
+                     st.sampled_from([-2.5, 0.0, 1.0, 7.0]).map(lambda v: [v] * n))
